@@ -309,7 +309,17 @@ func (j *judge) peer(pi int, ps *c10gen.PeerSpec, pr c10rt.PeerReport) {
 		if pb.Kind == "push" {
 			other = "call"
 		}
-		own := owners[pb.Kind][pb.Name]
+		// dispatch follows the FINAL name: what the peer's header-stage plug-ins made of the requested name
+		final := pb.Final
+		if final == "" {
+			final = pb.Name
+		}
+		disp := pb.Name
+		if final != pb.Name {
+			disp = pb.Name + " => " + final
+			core.Add("probes_renamed_by_header_plugin", 1)
+		}
+		own := owners[pb.Kind][final]
 		src := owners[pb.Kind][pb.Src]
 		if src == nil {
 			src = owners[other][pb.Src]
@@ -333,17 +343,20 @@ func (j *judge) peer(pi int, ps *c10gen.PeerSpec, pr c10rt.PeerReport) {
 		for _, e := range hEv {
 			if e.Kind != pb.Kind {
 				bad = true
-				j.v(scen, pclass, "call-push-namespace-shared", fmt.Sprintf("%s mapper: a %s for %q ran the %s handler %s", j.mapper, strings.ToUpper(pb.Kind), pb.Name, strings.ToUpper(e.Kind), e.Tag), w)
+				j.v(scen, pclass, "call-push-namespace-shared", fmt.Sprintf("%s mapper: a %s for %q ran the %s handler %s", j.mapper, strings.ToUpper(pb.Kind), disp, strings.ToUpper(e.Kind), e.Tag), w)
 			} else if own == nil {
 				bad = true
 				sym := "unregistered-name-invoked-handler"
 				if pb.Class == "cross-namespace" {
 					sym = "call-push-namespace-shared"
 				}
-				j.v(scen, pclass, sym, fmt.Sprintf("%s mapper: %s %q (%s of the registered name %q) is not a name returned by any %s registration but handler %s ran", j.mapper, strings.ToUpper(pb.Kind), pb.Name, pb.Class, pb.Src, strings.ToUpper(pb.Kind), e.Tag), w)
+				j.v(scen, pclass, sym, fmt.Sprintf("%s mapper: %s %q (%s of the registered name %q) is not a name returned by any %s registration but handler %s ran", j.mapper, strings.ToUpper(pb.Kind), disp, pb.Class, pb.Src, strings.ToUpper(pb.Kind), e.Tag), w)
 			} else if !has(own.reg.Tags, e.Tag) {
 				bad = true
-				j.v(scen, pclass, "wrong-handler", fmt.Sprintf("%s mapper: %s %q was returned for %s but handler %s (registered under %v) ran", j.mapper, strings.ToUpper(pb.Kind), pb.Name, own.reg.What, e.Tag, keys(tagNames[e.Tag])), w)
+				j.v(scen, pclass, "wrong-handler", fmt.Sprintf("%s mapper: %s %q was returned for %s but handler %s (registered under %v) ran", j.mapper, strings.ToUpper(pb.Kind), disp, own.reg.What, e.Tag, keys(tagNames[e.Tag])), w)
+			} else if e.SM != final {
+				bad = true
+				j.v(scen, pclass, "handler-saw-other-name", fmt.Sprintf("%s mapper: %s %q ran handler %s, whose ctx.ServiceMethod() was %q instead of %q", j.mapper, strings.ToUpper(pb.Kind), disp, e.Tag, e.SM, final), w)
 			}
 		}
 		if bad {
@@ -358,16 +371,16 @@ func (j *judge) peer(pi int, ps *c10gen.PeerSpec, pr c10rt.PeerReport) {
 				} else if pb.Kind == "call" && pb.Code == erpc.CodeNotFound {
 					sym = "registered-name-not-found"
 				}
-				j.v(scen, pclass, sym, fmt.Sprintf("%s mapper: %s registered in %q returned %q, but a %s for that name ran no handler (status %d %s)", j.mapper, own.reg.What, own.reg.Group, pb.Name, strings.ToUpper(pb.Kind), pb.Code, pb.Msg), w)
+				j.v(scen, pclass, sym, fmt.Sprintf("%s mapper: %s registered in %q returned %q, but %s %q ran no handler (status %d %s)", j.mapper, own.reg.What, own.reg.Group, final, strings.ToUpper(pb.Kind), disp, pb.Code, pb.Msg), w)
 			case len(hEv) > 1 || len(uEv) > 0:
-				j.v(scen, pclass, "multiple-handlers", fmt.Sprintf("%s mapper: one %s for %q ran %d handlers and %d unknown-handlers", j.mapper, strings.ToUpper(pb.Kind), pb.Name, len(hEv), len(uEv)), w)
+				j.v(scen, pclass, "multiple-handlers", fmt.Sprintf("%s mapper: one %s for %q ran %d handlers and %d unknown-handlers", j.mapper, strings.ToUpper(pb.Kind), disp, len(hEv), len(uEv)), w)
 			case pb.Kind == "call" && (pb.Code != 0 || pb.Result != hEv[0].Tag):
-				j.v(scen, pclass, "wrong-handler", fmt.Sprintf("%s mapper: CALL %q ran handler %s but the caller got status %d result %q", j.mapper, pb.Name, hEv[0].Tag, pb.Code, pb.Result), w)
+				j.v(scen, pclass, "wrong-handler", fmt.Sprintf("%s mapper: CALL %q ran handler %s but the caller got status %d result %q", j.mapper, disp, hEv[0].Tag, pb.Code, pb.Result), w)
 			default:
 				if regHits[own] == nil {
 					regHits[own] = map[string]string{}
 				}
-				regHits[own][pb.Name] = hEv[0].Tag
+				regHits[own][final] = hEv[0].Tag
 			}
 			continue
 		}
@@ -375,9 +388,9 @@ func (j *judge) peer(pi int, ps *c10gen.PeerSpec, pr c10rt.PeerReport) {
 		unknownSet := pb.Phase == "B" || pb.Phase == "S" || (pb.Phase == "C" && pb.Kind == "call")
 		if !unknownSet {
 			if len(uEv) > 0 { // only possible in phase C: the unknown-CALL-handler answered a push
-				j.v(scen, pclass, "call-push-namespace-shared", fmt.Sprintf("%s mapper: %s %q is not registered and only an unknown-%s-handler is set, but unknown-handler %s (%s) ran", j.mapper, strings.ToUpper(pb.Kind), pb.Name, other, uEv[0].Tag, uEv[0].Kind), w)
+				j.v(scen, pclass, "call-push-namespace-shared", fmt.Sprintf("%s mapper: %s %q is not registered and only an unknown-%s-handler is set, but unknown-handler %s (%s) ran", j.mapper, strings.ToUpper(pb.Kind), disp, other, uEv[0].Tag, uEv[0].Kind), w)
 			} else if pb.Kind == "call" && pb.Code != erpc.CodeNotFound {
-				j.v(scen, pclass, "not-404", fmt.Sprintf("%s mapper: CALL %q is not registered and no unknown-call-handler is set, the caller got status %d %q result %q instead of 404", j.mapper, pb.Name, pb.Code, pb.Msg, pb.Result), w)
+				j.v(scen, pclass, "not-404", fmt.Sprintf("%s mapper: CALL %q is not registered and no unknown-call-handler is set, the caller got status %d %q result %q instead of 404", j.mapper, disp, pb.Code, pb.Msg, pb.Result), w)
 			}
 			continue
 		}
@@ -389,6 +402,9 @@ func (j *judge) peer(pi int, ps *c10gen.PeerSpec, pr c10rt.PeerReport) {
 		if ok && pb.Kind == "call" && (pb.Code != 0 || pb.Result != utag) {
 			ok = false
 		}
+		if ok && uEv[0].SM != final {
+			j.v(scen, pclass, "handler-saw-other-name", fmt.Sprintf("%s mapper: %s %q reached the unknown-handler, whose ctx.ServiceMethod() was %q instead of %q", j.mapper, strings.ToUpper(pb.Kind), disp, uEv[0].SM, final), w)
+		}
 		if !ok {
 			how := "on the peer"
 			pc := pclass
@@ -396,7 +412,7 @@ func (j *judge) peer(pi int, ps *c10gen.PeerSpec, pr c10rt.PeerReport) {
 				how = fmt.Sprintf("through SubRoute%q.ToRouter()", ps.UnknownGroup)
 				pc = pb.Kind // the identifier pattern is irrelevant for where the unknown-handler was set
 			}
-			j.v(scen, pc, "unknown-handler-not-reached", fmt.Sprintf("%s mapper: %s %q is not registered and an unknown-%s-handler was set %s, but it ran %d times (caller status %d %q)", j.mapper, strings.ToUpper(pb.Kind), pb.Name, pb.Kind, how, len(uEv), pb.Code, pb.Msg), w)
+			j.v(scen, pc, "unknown-handler-not-reached", fmt.Sprintf("%s mapper: %s %q is not registered and an unknown-%s-handler was set %s, but it ran %d times (caller status %d %q)", j.mapper, strings.ToUpper(pb.Kind), disp, pb.Kind, how, len(uEv), pb.Code, pb.Msg), w)
 		}
 	}
 	// the names of a registration and its handlers correspond one to one
